@@ -305,7 +305,7 @@ def observe(fx):
     return rec
 
 
-def h_fit3(flags, nm, nd, conf_kind='open'):
+def h_fit3(flags, nm, nd, conf_kind='open', mask_assign='fork'):
     nf = len(flags)
     fitted = [j for j, fl in enumerate(flags) if fl in FITTED]
 
@@ -316,7 +316,7 @@ def h_fit3(flags, nm, nd, conf_kind='open'):
                              "is proved equal to the independent specification before the selection over distances is checked")
         fx = fitfix.Fit()
         rec = observe(fx)
-        ex = C.Explorer(query_timeout_ms=60000)
+        ex = C.Explorer(query_timeout_ms=60000, mask_assign=mask_assign)
         cl = R.Claims(part, ex, ID)
 
         def body(c, rng=None):
@@ -402,7 +402,9 @@ def configs(tier, seed):
     for flags, nm, nd in ([((4, 1), 1, 2), ((1, 2, 4), 1, 2), ((4, 4), 2, 2), ((4, 1), 1, 3)] if q else
                           [((4, 1), 1, 2), ((1, 2, 4), 1, 2), ((4, 4), 2, 2), ((4, 1), 1, 3), ((1, 3, 4), 1, 3), ((4, 9, 1, 0), 1, 2),
                            ((1,), 1, 3), ((4, 1), 2, 3)]):
-        cfgs.append(Config('H02b fit nm=%d nd=%d flags=%s' % (nm, nd, ''.join(map(str, flags))), h_fit3(flags, nm, nd), 3000))
+        heavy = nd >= 3 and (nm > 1 or len(flags) > 2)
+        cfgs.append(Config('H02b fit nm=%d nd=%d flags=%s%s' % (nm, nd, ''.join(map(str, flags)), ' (clamp as if-then-else term)' if heavy else ''),
+                           h_fit3(flags, nm, nd, mask_assign='ite' if heavy else 'fork'), 3000))
     cfgs.append(Config('H02b fit nm=1 nd=2 flags=142 conf=one', h_fit3((1, 4, 2), 1, 2, 'one'), 3000))
     return cfgs
 
